@@ -19,6 +19,7 @@ import (
 
 	metav1 "k8s.io/apimachinery/pkg/apis/meta/v1"
 	"k8s.io/apimachinery/pkg/apis/meta/v1/unstructured"
+	"k8s.io/apimachinery/pkg/runtime"
 	"k8s.io/apimachinery/pkg/runtime/schema"
 	"k8s.io/apimachinery/pkg/types"
 	"sigs.k8s.io/controller-runtime/pkg/client"
@@ -1149,6 +1150,142 @@ func runClaimDeletionFaults(c *kit.Ctx) {
 	}
 }
 
+// runVersionBump is part G: a claim is bound, then the XRD author makes another (newly added)
+// version the referenceable one - the definition and offered reconcilers restart the XR and claim
+// controllers for it - and then the claim is deleted. Whatever the claim controller makes of the
+// XR's old-version claim reference, the claim's finalizer goes only after its XR was deleted.
+func runVersionBump(c *kit.Ctx) {
+	for _, ssa := range []bool{false, true} {
+		for _, pol := range []string{"Background", "Foreground"} {
+			name := fmt.Sprintf("version-bump-then-claim-deletion/ssa=%v/%s", ssa, pol)
+			if !c.Want(name) {
+				continue
+			}
+			e := newEnv(uint64(c.Seed)*229+3, ssa)
+			e.w.MustSeed("user", xrk.ClaimObject("ex.org/v1", "Thing", "ns1", "c0", map[string]any{"compositionRef": map[string]any{"name": "comp"}, "compositeDeletePolicy": pol}))
+			e.settle(4)
+			m := newMonitor()
+			m.running[ctlComposite] = e.defEng.IsRunning(ctlComposite)
+			m.running[ctlClaim] = e.offEng.IsRunning(ctlClaim)
+			e.w.AddHook(m.hook)
+			from := e.w.LogLen()
+			// the author adds v2 and makes it the referenceable version (v1 stays served)
+			var xk sim.Key
+			for _, o := range e.w.ListObjs(schema.GroupKind{Group: "apiextensions.crossplane.io", Kind: "CompositeResourceDefinition"}) {
+				xk = sim.KeyOf(o)
+			}
+			d := &unstructured.Unstructured{Object: e.w.GetObj(xk)}
+			vs, _, _ := unstructured.NestedSlice(d.Object, "spec", "versions")
+			if len(vs) == 0 {
+				c.Inconclusive("version-bump: the XRD has no versions")
+				return
+			}
+			v2 := runtime.DeepCopyJSON(vs[0].(map[string]any))
+			v2["name"], v2["referenceable"] = "v2", true
+			vs[0].(map[string]any)["referenceable"] = false
+			_ = unstructured.SetNestedSlice(d.Object, append(vs, v2), "spec", "versions")
+			if err := e.w.Client("user").Update(ctx, d); err != nil {
+				panic(err)
+			}
+			e.settle(4)
+			if cm := e.w.GetObj(sim.Key{Group: "ex.org", Kind: "Thing", Namespace: "ns1", Name: "c0"}); cm != nil {
+				_ = e.w.Client("user").Delete(ctx, &unstructured.Unstructured{Object: cm})
+			}
+			e.settle(8)
+			c.Eval(name, true)
+			c.Count("version_bump_cases", 1)
+			c.Count("monitor_evaluations", int64(m.checks))
+			if cm := e.w.GetObj(sim.Key{Group: "ex.org", Kind: "Thing", Namespace: "ns1", Name: "c0"}); cm != nil {
+				c.Count("version_bump_claim_deletion_not_finished_observed_only", 1)
+			}
+			for i, key := range m.keys {
+				c.Violate(key+":version-bump", name, m.whats[i], map[string]any{"ssa": ssa, "policy": pol, "order": m.order, "trace": shortTrace(e.w, from, 80)})
+			}
+		}
+	}
+}
+
+// restart replaces the XRD controllers and their engines by fresh ones: Crossplane crashed or
+// failed over; no XR or claim controller runs until the XRD reconcilers start them again.
+func (e *env) restart(ssa bool) {
+	e.xrC, e.clC = e.w.Client("xr"), e.w.Client("claim")
+	e.defEng = xrk.NewCapturingEngine(e.w, e.xrC)
+	e.offEng = xrk.NewCapturingEngine(e.w, e.clC)
+	od := xrk.Options(ssa)
+	od.FunctionRunner = xfn.NewPackagedFunctionRunner(e.xrC)
+	e.defR = definition.NewReconciler(definition.NewClientApplicator(e.w.Client("definition")), definition.WithControllerEngine(e.defEng), definition.WithOptions(od))
+	e.offR = offered.NewReconciler(offered.NewClientApplicator(e.w.Client("offered")), offered.WithControllerEngine(e.offEng), offered.WithOptions(xrk.Options(ssa)))
+}
+
+// runRestartDuringTeardown is part H: the XRD is deleted while an XR (or a claim) cannot go yet
+// (somebody else's finalizer holds it); before it is gone Crossplane restarts, so the new process
+// finds a deleting XRD, instances, and no running controller for them. The CRDs stay until every
+// instance is gone, whoever is or is not there to finalize them.
+func runRestartDuringTeardown(c *kit.Ctx) {
+	for i, what := range []string{"xr", "claim", "xr", "claim"} {
+		ssa := i >= 2
+		name := fmt.Sprintf("restart-during-teardown/%s/ssa=%v", what, ssa)
+		if !c.Want(name) {
+			continue
+		}
+		e := newEnv(uint64(c.Seed)*233+uint64(i), ssa)
+		if what == "claim" {
+			e.w.MustSeed("user", xrk.ClaimObject("ex.org/v1", "Thing", "ns1", "c0", map[string]any{"compositionRef": map[string]any{"name": "comp"}}))
+		} else {
+			e.w.MustSeed("user", xrk.XRObject("ex.org/v1", "XThing", "direct-xr", "comp", nil))
+		}
+		e.settle(4)
+		// a third party holds every instance with a finalizer of its own
+		for _, gk := range []schema.GroupKind{xrGK, claimGK} {
+			for _, o := range e.w.ListObjs(gk) {
+				u := &unstructured.Unstructured{Object: o}
+				u.SetFinalizers(append(u.GetFinalizers(), "third-party.example.org/hold"))
+				if err := e.w.Client("third-party").Update(ctx, u); err != nil {
+					panic(err)
+				}
+			}
+		}
+		xrd := e.w.GetObj(sim.Key{Group: "apiextensions.crossplane.io", Kind: "CompositeResourceDefinition", Name: xrdName})
+		if err := e.w.Client("user").Delete(ctx, &unstructured.Unstructured{Object: xrd}); err != nil {
+			panic(err)
+		}
+		e.settle(2)
+		e.restart(ssa)
+		m := newMonitor()
+		e.w.AddHook(m.hook)
+		from := e.w.LogLen()
+		e.settle(4)
+		left := len(e.w.ListObjs(xrGK)) + len(e.w.ListObjs(claimGK))
+		// the third party lets go
+		for _, gk := range []schema.GroupKind{xrGK, claimGK} {
+			for _, o := range e.w.ListObjs(gk) {
+				u := &unstructured.Unstructured{Object: o}
+				var keep []string
+				for _, f := range u.GetFinalizers() {
+					if f != "third-party.example.org/hold" {
+						keep = append(keep, f)
+					}
+				}
+				u.SetFinalizers(keep)
+				_ = e.w.Client("third-party").Update(ctx, u)
+			}
+		}
+		e.settle(6)
+		c.Eval(name, left > 0)
+		c.Count("restart_during_teardown_cases", 1)
+		c.Count("monitor_evaluations", int64(m.checks))
+		if e.w.GetObj(sim.Key{Group: "apiextensions.crossplane.io", Kind: "CompositeResourceDefinition", Name: xrdName}) != nil {
+			c.Count("restart_during_teardown_not_finished_observed_only", 1)
+		}
+		for k, key := range m.keys {
+			if strings.HasPrefix(key, "xr-orphaned-with-dead-controller") || strings.HasPrefix(key, "claim-orphaned-with-dead-controller") {
+				continue
+			}
+			c.Violate(key+":restart-during-teardown", name, m.whats[k], map[string]any{"ssa": ssa, "held": what, "order": m.order, "trace": shortTrace(e.w, from, 80)})
+		}
+	}
+}
+
 // runPausedTeardown is part F: the XRD is deleted while a claim (or an XR) carries the
 // crossplane.io/paused annotation, so its own controller does not finalize it. The teardown has
 // to wait for it like for any other instance: controller stop and CRD deletion only after every
@@ -1281,6 +1418,12 @@ func main() {
 	}
 	if err := kit.Try(func() { runPausedTeardown(c) }); err != nil {
 		c.Violate("panic:paused-teardown", "paused-teardown", err.Error(), nil)
+	}
+	if err := kit.Try(func() { runRestartDuringTeardown(c) }); err != nil {
+		c.Violate("panic:restart-during-teardown", "restart-during-teardown", err.Error(), nil)
+	}
+	if err := kit.Try(func() { runVersionBump(c) }); err != nil {
+		c.Violate("panic:version-bump", "version-bump-then-claim-deletion", err.Error(), nil)
 	}
 	if err := kit.Try(func() { runComposedUsage(c) }); err != nil {
 		c.Violate("panic:composed-usage", "composed-usage", err.Error(), nil)
